@@ -484,6 +484,12 @@ class ComputeGraph(MultiDiGraph):
             else:
                 fargs.append(self.get_var(arg, from_backend=True))
 
+        # arguments that the function itself updates between calls (delay ring buffers): solvers that evaluate the
+        # function more than once per step have to know them
+        n_lead = 4 if add_hist_calls else 3
+        self.backend.stateful_args = tuple(a for name, a in list(zip(func_args, fargs))[n_lead:]
+                                           if isinstance(a, np.ndarray) and not self.get_var(name).is_constant)
+
         return func, tuple(fargs), tuple(func_args), self._state_var_indices.copy()
 
     def run(self, func: Callable, func_args: tuple, T: float, dt: float, dts: Optional[float] = None,
